@@ -7,7 +7,11 @@
     C05): [sq] is the submission queue with [cap] slots, [cq] the completions published and not
     yet processed. One model step is one call of the public API ([Poll], [DropOp], [RingPoll])
     or one kernel action ([KPost]); the per-operation mutex makes the API calls atomic with
-    respect to completion processing. Executable definitions only. *)
+    respect to completion processing. Executable definitions only.
+
+    Fields named [g_…] are GHOST history bookkeeping (ledgers used to state C02/C03): no
+    executable field, no observation and no branch ever reads them, so [run_opcase] does not
+    depend on them. *)
 From A10 Require Import Base.Word Base.Run.
 
 Definition EINTR : Z := 4.
@@ -29,6 +33,14 @@ Inductive status :=
   | Dropped
   | Complete.
 
+(** Submission queue entries (abstract). *)
+Inductive sqe := Submit (i : nat) | Cancel (i : nat).
+
+(** Observations. *)
+Inductive obs :=
+  | OPending | OReady (v : Z) | OErr (e : Z) | OEnd | OPanic
+  | OConsumed (s : sqe) | OWake (w : N) | OFree (i : nat) | OFreeRes (i : nat).
+
 Record op := {
   kd : kind;
   st : status;
@@ -37,10 +49,13 @@ Record op := {
   res_live : bool;     (* the resources (buffers, …) are still owned by the state *)
   attempts : N;        (* submissions made for it so far *)
   cancelable : bool;   (* kernel side: an ASYNC_CANCEL for it wins *)
+  (* ghost *)
+  g_in : list cqe;     (* completions [update] accepted for it in the current attempt, in order *)
+  g_out : list obs;    (* OReady/OErr/OEnd its [poll] handed out in the current attempt, in order *)
+  g_recv : list cqe;   (* every completion [update] ever accepted for it, in order *)
+  g_lastw : option N;  (* waker of the most recent poll that returned Pending by registering it,
+                          unless a readying completion has been processed since *)
 }.
-
-(** Submission queue entries (abstract). *)
-Inductive sqe := Submit (i : nat) | Cancel (i : nat).
 
 Record sys := {
   ops : list op;
@@ -49,40 +64,58 @@ Record sys := {
   inflight : list nat;         (* consumed, final completion not yet posted *)
   cq : list (option nat * cqe);(* posted, not yet processed; [None] = bookkeeping entry *)
   blocked : list N;            (* wakers waiting for a submission slot *)
+  (* ghost *)
+  g_posted : list (nat * cqe); (* every operation completion ever appended to [cq], in order *)
+  g_disp : list (nat * cqe);   (* every (operation, completion) [process] handed to [update], in order *)
 }.
 
 Definition new_op (k : kind) (c : bool) : op :=
   {| kd := k; st := NotStarted; waker := None; freed := false; res_live := true;
-     attempts := 0; cancelable := c |}.
+     attempts := 0; cancelable := c; g_in := []; g_out := []; g_recv := []; g_lastw := None |}.
 
 Definition init (cap0 : N) (kinds : list (kind * bool)) : sys :=
   {| ops := map (fun '(k, c) => new_op k c) kinds; cap := cap0; sq := []; inflight := [];
-     cq := []; blocked := [] |}.
-
-(** Observations. *)
-Inductive obs :=
-  | OPending | OReady (v : Z) | OErr (e : Z) | OEnd | OPanic
-  | OConsumed (s : sqe) | OWake (w : N) | OFree (i : nat) | OFreeRes (i : nat).
+     cq := []; blocked := []; g_posted := []; g_disp := [] |}.
 
 Definition set_op (s : sys) (i : nat) (o : op) : sys :=
   {| ops := firstn i (ops s) ++ o :: skipn (S i) (ops s);
-     cap := cap s; sq := sq s; inflight := inflight s; cq := cq s; blocked := blocked s |}.
+     cap := cap s; sq := sq s; inflight := inflight s; cq := cq s; blocked := blocked s;
+     g_posted := g_posted s; g_disp := g_disp s |}.
 
 Definition with_st (o : op) (x : status) : op :=
   {| kd := kd o; st := x; waker := waker o; freed := freed o; res_live := res_live o;
-     attempts := attempts o; cancelable := cancelable o |}.
+     attempts := attempts o; cancelable := cancelable o;
+     g_in := g_in o; g_out := g_out o; g_recv := g_recv o; g_lastw := g_lastw o |}.
 Definition with_waker (o : op) (w : option N) : op :=
   {| kd := kd o; st := st o; waker := w; freed := freed o; res_live := res_live o;
-     attempts := attempts o; cancelable := cancelable o |}.
+     attempts := attempts o; cancelable := cancelable o;
+     g_in := g_in o; g_out := g_out o; g_recv := g_recv o; g_lastw := g_lastw o |}.
+(** Ghost only: replace the ledgers. *)
+Definition with_ghost (o : op) (gi : list cqe) (go : list obs) (gr : list cqe) (gl : option N) : op :=
+  {| kd := kd o; st := st o; waker := waker o; freed := freed o; res_live := res_live o;
+     attempts := attempts o; cancelable := cancelable o;
+     g_in := gi; g_out := go; g_recv := gr; g_lastw := gl |}.
+(** Ghost: [poll] hands [x] out / registers waker [w] and returns Pending / a new attempt begins /
+    [update] accepts completion [c]. *)
+Definition hand_out (o : op) (x : obs) : op :=
+  with_ghost o (g_in o) (g_out o ++ [x]) (g_recv o) (g_lastw o).
+Definition registered (o : op) (w : N) : op :=
+  with_ghost o (g_in o) (g_out o) (g_recv o) (Some w).
+Definition new_attempt (o : op) : op := with_ghost o [] [] (g_recv o) (g_lastw o).
+(** A completion that makes the future ready: the final one, or any one of a multishot. *)
+Definition readying (k : kind) (c : cqe) : bool :=
+  negb (more c) || match k with Multi => true | Single => false end.
+Definition accepted (o : op) (c : cqe) (clear : bool) : op :=
+  with_ghost o (g_in o ++ [c]) (g_out o) (g_recv o ++ [c]) (if clear then None else g_lastw o).
 
 Definition has_room (s : sys) : bool := N.of_nat (length (sq s)) <? cap s.
 
 Definition push_sq (s : sys) (e : sqe) : sys :=
   {| ops := ops s; cap := cap s; sq := sq s ++ [e]; inflight := inflight s; cq := cq s;
-     blocked := blocked s |}.
+     blocked := blocked s; g_posted := g_posted s; g_disp := g_disp s |}.
 Definition push_blocked (s : sys) (w : N) : sys :=
   {| ops := ops s; cap := cap s; sq := sq s; inflight := inflight s; cq := cq s;
-     blocked := blocked s ++ [w] |}.
+     blocked := blocked s ++ [w]; g_posted := g_posted s; g_disp := g_disp s |}.
 
 Definition is_restart (c : cqe) : bool := (res c =? - EINTR)%Z || (res c =? - ECANCELED)%Z.
 
@@ -92,7 +125,8 @@ Definition poll_start (s : sys) (i : nat) (o : op) (w : N) : sys * list obs :=
     let o' := {| kd := kd o;
                  st := Running (match kd o with Single => [default_cqe] | Multi => [] end);
                  waker := Some w; freed := freed o; res_live := res_live o;
-                 attempts := attempts o + 1; cancelable := cancelable o |} in
+                 attempts := attempts o + 1; cancelable := cancelable o;
+                 g_in := []; g_out := []; g_recv := g_recv o; g_lastw := Some w |} in
     (push_sq (set_op s i o') (Submit i), [OPending])
   else (push_blocked (set_op s i o) w, [OPending]).
 
@@ -100,7 +134,8 @@ Definition poll_start (s : sys) (i : nat) (o : op) (w : N) : sys * list obs :=
     (end of a multishot stream). *)
 Definition take_res (o : op) : op :=
   {| kd := kd o; st := st o; waker := waker o; freed := freed o; res_live := false;
-     attempts := attempts o; cancelable := cancelable o |}.
+     attempts := attempts o; cancelable := cancelable o;
+     g_in := g_in o; g_out := g_out o; g_recv := g_recv o; g_lastw := g_lastw o |}.
 
 Definition poll (s : sys) (i : nat) (w : N) : sys * list obs :=
   match nth_error (ops s) i with
@@ -111,32 +146,40 @@ Definition poll (s : sys) (i : nat) (w : N) : sys * list obs :=
     | Running rs =>
         match kd o, rs with
         | Multi, c :: rs' =>
-            (set_op s i (with_st o (Running rs')),
-             [if (res c <? 0)%Z then OErr (res c) else OReady (res c)])
-        | _, _ => (set_op s i (with_waker o (Some w)), [OPending])
+            let x := if (res c <? 0)%Z then OErr (res c) else OReady (res c) in
+            (set_op s i (hand_out (with_st o (Running rs')) x), [x])
+        | _, _ => (set_op s i (registered (with_waker o (Some w)) w), [OPending])
         end
     | Done rs =>
         match kd o, rs with
         | Multi, [] =>
-            (set_op s i (take_res (with_st o Complete)), [OEnd; OFreeRes i])
+            (set_op s i (hand_out (take_res (with_st o Complete)) OEnd), [OEnd; OFreeRes i])
         | Single, [] => (s, [OPanic])
         | Single, c :: _ =>
-            if (0 <=? res c)%Z then (set_op s i (take_res (with_st o Complete)), [OReady (res c)])
-            else if is_restart c then poll_start s i (with_st o NotStarted) w
-            else (set_op s i (take_res (with_st o Complete)), [OErr (res c)])
+            if (0 <=? res c)%Z then
+              (set_op s i (hand_out (take_res (with_st o Complete)) (OReady (res c))), [OReady (res c)])
+            else if is_restart c then poll_start s i (new_attempt (with_st o NotStarted)) w
+            else (set_op s i (hand_out (take_res (with_st o Complete)) (OErr (res c))), [OErr (res c)])
         | Multi, c :: rs' =>
-            if (0 <=? res c)%Z then (set_op s i (with_st o (Done rs')), [OReady (res c)])
+            if (0 <=? res c)%Z then
+              (set_op s i (hand_out (with_st o (Done rs')) (OReady (res c))), [OReady (res c)])
             else if is_restart c then
               match rs' with
-              | [] => poll_start s i (with_st o NotStarted) w
+              | [] => poll_start s i (new_attempt (with_st o NotStarted)) w
               | _ => (set_op s i (with_st o (Done rs')), [OPanic])
               end
-            else (set_op s i (with_st o (Done rs')), [OErr (res c)])
+            else (set_op s i (hand_out (with_st o (Done rs')) (OErr (res c))), [OErr (res c)])
         end
     | Dropped => (s, [OPanic])
     | Complete => (s, [OPanic])
     end
   end.
+
+(** The boxed state is deallocated (resources dropped with it). *)
+Definition free_op (o : op) : op :=
+  {| kd := kd o; st := st o; waker := waker o; freed := true; res_live := false;
+     attempts := attempts o; cancelable := cancelable o;
+     g_in := g_in o; g_out := g_out o; g_recv := g_recv o; g_lastw := g_lastw o |}.
 
 (** [State::drop]. *)
 Definition drop_op (s : sys) (i : nat) : sys * list obs :=
@@ -149,9 +192,7 @@ Definition drop_op (s : sys) (i : nat) : sys * list obs :=
         (set_op s1 i (with_st o Dropped), [])
     | Dropped => (s, [OPanic])
     | _ =>
-        let o' := {| kd := kd o; st := st o; waker := waker o; freed := true; res_live := false;
-                     attempts := attempts o; cancelable := cancelable o |} in
-        (set_op s i o',
+        (set_op s i (free_op o),
          (if res_live o then [OFreeRes i] else []) ++ (if 0 <? attempts o then [OFree i] else []))
     end
   end.
@@ -171,25 +212,27 @@ Definition update (s : sys) (i : nat) (c : cqe) : sys * list obs :=
         let st' := if done then Done rs'
                    else match st o with Done _ => Done rs' | _ => Running rs' end in
         let multi := match kd o with Multi => true | Single => false end in
+        let o1 := accepted o c (readying (kd o) c) in
         if done || multi then
           match waker o with
-          | Some w => (set_op s i (with_waker (with_st o st') None), [OWake w])
-          | None => (set_op s i (with_st o st'), [])
+          | Some w => (set_op s i (with_waker (with_st o1 st') None), [OWake w])
+          | None => (set_op s i (with_st o1 st'), [])
           end
-        else (set_op s i (with_st o st'), [])
+        else (set_op s i (with_st o1 st'), [])
     | Dropped =>
-        if more c then (s, [])
+        if more c then (set_op s i (accepted o c false), [])
         else
-          let o' := {| kd := kd o; st := st o; waker := waker o; freed := true; res_live := false;
-                       attempts := attempts o; cancelable := cancelable o |} in
-          (set_op s i o', (if res_live o then [OFreeRes i] else []) ++ [OFree i])
+          (set_op s i (free_op (accepted o c false)),
+           (if res_live o then [OFreeRes i] else []) ++ [OFree i])
     | NotStarted | Complete => (s, [OPanic])
     end
   end.
 
 Definition post (s : sys) (e : option nat * cqe) : sys :=
   {| ops := ops s; cap := cap s; sq := sq s; inflight := inflight s; cq := cq s ++ [e];
-     blocked := blocked s |}.
+     blocked := blocked s;
+     g_posted := g_posted s ++ match fst e with Some i => [(i, snd e)] | None => [] end;
+     g_disp := g_disp s |}.
 
 Fixpoint remove_first (i : nat) (l : list nat) : list nat :=
   match l with
@@ -198,7 +241,8 @@ Fixpoint remove_first (i : nat) (l : list nat) : list nat :=
   end.
 
 Definition set_inflight (s : sys) (l : list nat) : sys :=
-  {| ops := ops s; cap := cap s; sq := sq s; inflight := l; cq := cq s; blocked := blocked s |}.
+  {| ops := ops s; cap := cap s; sq := sq s; inflight := l; cq := cq s; blocked := blocked s;
+     g_posted := g_posted s; g_disp := g_disp s |}.
 
 (** The kernel consumes one submission (K1, K4). *)
 Definition kconsume (s : sys) (e : sqe) : sys :=
@@ -217,8 +261,10 @@ Definition kconsume (s : sys) (e : sqe) : sys :=
       else post s (None, {| res := - ENOENT; more := false; notif := false |})
   end.
 
-Definition take_sq (s : sys) : sys :=
-  {| ops := ops s; cap := cap s; sq := []; inflight := inflight s; cq := cq s; blocked := blocked s |}.
+Definition set_sq (s : sys) (q : list sqe) : sys :=
+  {| ops := ops s; cap := cap s; sq := q; inflight := inflight s; cq := cq s; blocked := blocked s;
+     g_posted := g_posted s; g_disp := g_disp s |}.
+Definition take_sq (s : sys) : sys := set_sq s [].
 
 (** [wake_blocked_futures] after a successful [enter]: with the whole queue just consumed every
     slot is available. *)
@@ -226,7 +272,15 @@ Definition wake_blocked (s : sys) : sys * list obs :=
   let avail := N.to_nat (cap s - N.of_nat (length (sq s))) in
   let ws := firstn avail (blocked s) in
   ({| ops := ops s; cap := cap s; sq := sq s; inflight := inflight s; cq := cq s;
-      blocked := skipn avail (blocked s) |}, map OWake ws).
+      blocked := skipn avail (blocked s); g_posted := g_posted s; g_disp := g_disp s |},
+   map OWake ws).
+
+(** [Completions::poll] pops the first published completion; operation completions are
+    recorded in the dispatch ledger. *)
+Definition pop_cq (s : sys) (t : option nat) (c : cqe) (r : list (option nat * cqe)) : sys :=
+  {| ops := ops s; cap := cap s; sq := sq s; inflight := inflight s; cq := r;
+     blocked := blocked s; g_posted := g_posted s;
+     g_disp := g_disp s ++ match t with Some i => [(i, c)] | None => [] end |}.
 
 Fixpoint process (fuel : nat) (s : sys) : sys * list obs :=
   match fuel with
@@ -235,8 +289,7 @@ Fixpoint process (fuel : nat) (s : sys) : sys * list obs :=
       match cq s with
       | [] => (s, [])
       | (t, c) :: r =>
-          let s0 := {| ops := ops s; cap := cap s; sq := sq s; inflight := inflight s; cq := r;
-                       blocked := blocked s |} in
+          let s0 := pop_cq s t c r in
           match t with
           | None => process f s0
           | Some i =>
